@@ -96,6 +96,8 @@ def spec_strategy(draw, families=("LAN", "ROUTED", "DMZ"), allow_off=True, max_h
         "amap_order": draw(st.sampled_from([0, 0, 1, 7, 12345])),
         # which network device (index into routers+firewalls+switches), if any, is DECLARED operating_state OFF
         "infra_off": draw(st.sampled_from([None, None, None, None, None, None, 0, 1, 2])),
+        # shape of the browsers' target_url: plain name, explicit port, upper-case host, address literal, unknown name
+        "url": draw(st.sampled_from(["plain", "plain", "port80", "port8080", "upper", "ip", "unknown"])),
         "defaults": draw(st.sampled_from([None, None, {"folder_scan_duration": 1, "folder_restore_duration": 1,
                                                         "node_scan_duration": 2, "service_fix_duration": 1,
                                                         "service_restart_duration": 1}])),
@@ -257,7 +259,11 @@ def build(spec: Dict) -> Tuple[Dict, Dict]:
                         o["server_password"] = "pw"
                     apps.append({"type": "database-client", "options": o})
                 elif t == "browser":
-                    apps.append({"type": "web-browser", "options": {"target_url": "http://arcd.com/users/"}})
+                    url = {"plain": "http://arcd.com/users/", "port80": "http://arcd.com:80/users/",
+                           "port8080": "http://arcd.com:8080/users/", "upper": "http://ARCD.com/users/",
+                           "ip": f"http://{web_ip or all_host_ips[0]}/users/",
+                           "unknown": "http://nosuch.example/"}[spec.get("url", "plain")]
+                    apps.append({"type": "web-browser", "options": {"target_url": url}})
                 elif t == "dmbot":
                     apps.append({"type": "data-manipulation-bot",
                                  "options": {"port_scan_p_of_success": 0.8, "data_manipulation_p_of_success": 0.8,
